@@ -2,7 +2,7 @@
    Statements only.  OrderedList.v: the ordered list's position search with sentinels and cursor (the double-release
    test lives inside it); InvalidRelease.v: small list tests, LIFO block sources; Stack.v: unwind. *)
 From Coq Require Import ZArith List Bool.
-From FM Require Import OrderedList OrderedListProofs InvalidRelease InvalidReleaseProofs Stack FixedStack SmallList SmallListProofs.
+From FM Require Import OrderedList OrderedListProofs InvalidRelease InvalidReleaseProofs Stack FixedStack SmallList SmallListProofs StackProofs Arena ArenaProofs LifoBridge ArenaLifo.
 Import ListNotations.
 Local Open Scope Z_scope.
 
@@ -126,3 +126,21 @@ Example C16_nonvacuous :
    match o_dealloc false true l 1056 with Ret l' => nodes l' | _ => [] end)
   = (Reported, Unreachable, Reported, AssertFail, [1040; 1056; 1072; 1152; 1168]).
 Proof. vm_compute. reflexivity. Qed.
+
+(* ---- no false report on valid histories of the LIFO-only block sources ---- *)
+(* a call sequence that returns blocks newest-first (StackProofs.apply_calls: the discipline proved for arenas and stacks) is
+   never reported by static_block_allocator (virt = false: address and size) nor by virtual_block_allocator (virt = true), and the
+   source stays consistent with the blocks that are out *)
+Theorem C16_lifo_discipline_is_never_reported : forall virt cs s held held',
+  lifo_consistent s held -> apply_calls held cs = Some held' -> lifo_run virt s cs <> LRep.
+Proof. exact lifo_discipline_no_false_report. Qed.
+Print Assumptions C16_lifo_discipline_is_never_reported.
+
+(* hence an arena (a memory_stack's block bookkeeping) over such a source: any history of block requests, releases (to the cache
+   or to the source), shrink_to_fit, with any answers, followed by destruction with used and cached blocks at once *)
+Theorem C16_arena_over_lifo_source_never_reported : forall virt cached base bs h,
+  let s0 := {| lf_base := base; lf_cur := base; lf_bs := bs |} in
+  let '(a', calls) := ar_run (ar_init AConst cached bs) h in
+  lifo_run virt s0 (calls ++ ar_destroy_calls a') <> LRep.
+Proof. exact arena_over_lifo_source_never_reported. Qed.
+Print Assumptions C16_arena_over_lifo_source_never_reported.
